@@ -296,9 +296,12 @@ class Emitter:
         for m, path in paths:
             for sname in S.state_order(m):
                 w('#if CFG >= 5')
-                w('  o += "%s:%s=" + std::to_string((int)%s::get_state_id<%s>()) + ";";' % (m['name'], sname, m['name'], sname))
+                tname = sname
+                if m['states'][sname]['kind'] == 'exit_pt':
+                    tname = '%s::exit_pt<%s>' % (m['name'], sname)
+                w('  o += "%s:%s=" + std::to_string((int)%s::get_state_id<%s>()) + ";";' % (m['name'], sname, m['name'], tname))
                 w('#else')
-                w('  o += "%s:%s=" + std::to_string((int)rt::backns::get_state_id<%s::stt,%s>::value) + ";";' % (m['name'], sname, m['name'], sname))
+                w('  o += "%s:%s=" + std::to_string((int)rt::backns::get_state_id<%s::stt,%s>::value) + ";";' % (m['name'], sname, m['name'], tname))
                 w('#endif')
         w('  return o; }')
         # freeze table
@@ -329,6 +332,18 @@ class Emitter:
         w('}')
         self.emit_probes(paths)
         w('} // namespace gen')
+        w('namespace rt {')
+        w('std::string describe_std_any(const std::any& a){')
+        for e in sp['events']:
+            if not e.get('kleene'):
+                w('  if (auto p = std::any_cast<gen::%s>(&a)) return gen::rt_describe(*p);' % e['name'])
+        w('  return std::string("?") ; }')
+        w('std::string describe_boost_any(const boost::any& a){')
+        for e in sp['events']:
+            if not e.get('kleene'):
+                w('  if (auto p = boost::any_cast<gen::%s>(&a)) return gen::rt_describe(*p);' % e['name'])
+        w('  return std::string("?") ; }')
+        w('}')
         w('#include "rt_main.hpp"')
         w('int main(int argc, char** argv){ return rt::main_loop(argc, argv); }')
         return '\n'.join(self.out) + '\n'
